@@ -41,7 +41,8 @@ fn arb_conn() -> BoxedStrategy<ConnPlan> {
         ],
         proptest::option::weighted(0.15, (0usize..4, prop::sample::select(IoKind::ALL.to_vec()))),
         // back-pressure: the transport stops accepting bytes for a while after some bytes
-        proptest::option::weighted(0.15, (0u32..60, prop::sample::select(vec![1u32, 3, 10, 40, 200]))),
+        // (u32::MAX ms = longer than the whole run: a peer that stopped reading for good)
+        proptest::option::weighted(0.2, (0u32..60, prop::sample::select(vec![1u32, 3, 10, 40, 200, u32::MAX, u32::MAX]))),
     )
         .prop_map(|(per_request, default, fail_write_at, write_stall)| ConnPlan {
             peer: PeerPlan {
@@ -195,9 +196,15 @@ pub fn check_c10(case: &CliCase) -> CaseResult {
     let mut note = |k: IoKind| io_kinds.push(format!("{:?}", k.kind()));
     let mut eof_possible = false;
     let mut garbage_possible = false;
+    let mut stall_possible = false;
     for c in &case.conns {
         if let Some((_, k)) = c.fail_write_at {
             note(k);
+        }
+        if c.write_stall.is_some() {
+            // a write the transport does not take within the request's timeout is given up and
+            // reported as an I/O time-out (the connection is dropped with it)
+            stall_possible = true;
         }
         for acts in c.peer.per_request.iter().chain(std::iter::once(&c.peer.default)) {
             for a in acts {
@@ -226,6 +233,9 @@ pub fn check_c10(case: &CliCase) -> CaseResult {
     }
     if eof_possible {
         io_kinds.push("UnexpectedEof".to_string());
+    }
+    if stall_possible {
+        io_kinds.push("TimedOut".to_string());
     }
 
     let mut inflight_hit = false;
